@@ -332,28 +332,32 @@ Qed.
 Lemma mg_reduc_thm : Mg_reduc_stmt.
 Proof.
   intros R p p1 b Hp H1 Hb t.
+  assert (HR : 0 < R) by (clear - Hp; lia). assert (HR0 : R <> 0) by (clear - HR; lia).
+  assert (Hp0 : p <> 0) by (clear - Hp; lia). assert (Hpp : 0 < p) by (clear - Hp; lia).
   destruct (mg_reduc_core R p p1 b Hp H1 Hb) as [t0 [E Ht0]].
   assert (Et : t = if p <=? t0 then 0 else t0).
   { unfold t, mg_reduc. rewrite E.
-    assert (E1 : t0 * R / R = t0) by (apply Z.div_mul; lia). rewrite E1.
-    assert (E2 : t0 mod R = t0) by (apply Z.mod_small; lia). rewrite E2.
-    assert (E3 : t0 * R / (R * R) = 0) by (apply Z.div_small; nia). rewrite E3.
+    assert (E1 : t0 * R / R = t0) by (apply Z.div_mul; exact HR0). rewrite E1.
+    assert (E2 : t0 mod R = t0) by (apply Z.mod_small; clear - Ht0 Hp; lia). rewrite E2.
+    assert (E3 : t0 * R / (R * R) = 0) by (apply Z.div_small; clear - Ht0 Hp HR; nia). rewrite E3.
     cbn [Z.eqb negb orb]. destruct (Z.leb_spec p t0); [| reflexivity].
-    assert (t0 = p) by lia. subst t0. rewrite Z.sub_diag. apply Z.mod_0_l. lia. }
+    assert (t0 = p) by (clear - Ht0 H; lia). subst t0. rewrite Z.sub_diag. apply Z.mod_0_l. exact HR0. }
+  clearbody t.
   assert (Hcong : (t * R) mod p = b mod p).
   { rewrite Et. destruct (Z.leb_spec p t0).
-    - assert (t0 = p) by lia. subst t0. rewrite Z.mul_0_l, Z.mod_0_l by lia.
-      replace b with (p * R - (b * p1) mod R * p) by lia.
-      replace (p * R - (b * p1) mod R * p) with ((R - (b * p1) mod R) * p) by ring. symmetry. apply Z.mod_mul. lia.
-    - rewrite <- E. rewrite Z.add_comm, Z.mod_add by lia. reflexivity. }
-  split; [rewrite Et; destruct (Z.leb_spec p t0); lia|]. split; [exact Hcong|].
+    - assert (t0 = p) by (clear - Ht0 H; lia). subst t0. rewrite Z.mul_0_l, Z.mod_0_l by exact Hp0.
+      set (b0 := (b * p1) mod R) in *.
+      clearbody b0. assert (Eb : b = (R - b0) * p) by (replace ((R - b0) * p) with (p * R - b0 * p) by ring; clear - E; lia). rewrite Eb. symmetry. apply Z.mod_mul. exact Hp0.
+    - rewrite <- E. rewrite Z.add_comm, Z.mod_add by exact Hp0. reflexivity. }
+  assert (Hr : 0 <= t < p) by (rewrite Et; clear - Ht0 Hp; destruct (Z.leb_spec p t0); lia).
+  split; [exact Hr|]. split; [exact Hcong|].
   split.
-  - intros ->. rewrite <- Hcong. apply Z.mod_0_l. lia.
-  - intros Hz. rewrite Hz in Hcong. apply Z.mod_divide in Hcong; [| lia].
-    assert (Hrp : rel_prime R p) by (apply (rel_prime_of_inverse R p p1); [assumption | lia]).
+  - intros ->. rewrite <- Hcong. apply Z.mod_0_l. exact Hp0.
+  - intros Hz. rewrite Hz in Hcong. apply Z.mod_divide in Hcong; [| exact Hp0].
+    assert (Hrp : rel_prime R p) by (apply (rel_prime_of_inverse R p p1); assumption).
     assert (Hd : (p | t)) by (apply (Gauss p R t); [rewrite Z.mul_comm; exact Hcong | apply rel_prime_sym; exact Hrp]).
-    assert (Hr : 0 <= t < p) by (rewrite Et; destruct (Z.leb_spec p t0); lia).
-    destruct Hd as [k Hk]. nia.
+    destruct Hd as [k Hk]. clear - Hr Hk. destruct (Z.eq_dec k 0) as [-> | Hk0]; [lia|].
+    exfalso. assert (Hc : k <= -1 \/ 1 <= k) by lia. destruct Hc; nia.
 Qed.
 
 Lemma ru_pow_pos k : 0 < 2 ^ ru_bits k.
@@ -397,13 +401,17 @@ Proof.
   destruct (mg_reduc_thm R p p1 ((w * R) mod p) Hp H1 ltac:(lia)) as [Hr [Hc _]].
   split; [exact Hst|]. rewrite Z.mod_mod in Hc by lia.
   (* (v - w) * R = 0 mod p and gcd(R, p) = 1 *)
-  set (v := mg_reduc R p p1 ((w * R) mod p)) in *.
-  assert (Hrp : rel_prime R p) by (apply (rel_prime_of_inverse R p p1); [assumption | lia]).
-  assert (Hd : (p | (v - w mod p) * R)).
-  { apply Z.mod_divide; [lia|]. rewrite Z.mul_sub_distr_r, Zminus_mod, Hc.
-    rewrite (Z.mul_mod (w mod p) R p), Z.mod_mod, <- Z.mul_mod, Z.sub_diag by lia. apply Z.mod_0_l. lia. }
-  apply Gauss in Hd; [| apply rel_prime_sym; rewrite Z.mul_comm in *; exact Hrp].
-  - pose proof (Z.mod_pos_bound w p ltac:(lia)). destruct Hd as [q Hq]. nia.
+  set (v := mg_reduc R p p1 ((w * R) mod p)) in *. clearbody v.
+  assert (Hp0 : p <> 0) by (clear - Hp; lia).
+  assert (Hrp : rel_prime R p) by (apply (rel_prime_of_inverse R p p1); [assumption | clear - Hp; lia]).
+  assert (Hd : (p | R * (v - w mod p))).
+  { apply Z.mod_divide; [exact Hp0|]. replace (R * (v - w mod p)) with (v * R - (w mod p) * R) by ring.
+    rewrite Zminus_mod, Hc, (Z.mul_mod (w mod p) R p), Z.mod_mod, <- Z.mul_mod, Z.sub_diag by exact Hp0. apply Z.mod_0_l. exact Hp0. }
+  apply Gauss in Hd; [| apply rel_prime_sym; exact Hrp].
+  assert (Hw : 0 <= w mod p < p) by (apply Z.mod_pos_bound; clear - Hp; lia).
+  destruct Hd as [q Hq]. set (wp := w mod p) in *. clearbody wp. clear - Hr Hw Hq.
+  destruct (Z.eq_dec q 0) as [-> | Hq0]; [lia|].
+  exfalso. assert (Hc : q <= -1 \/ 1 <= q) by lia. destruct Hc; nia.
 Qed.
 
 (* ---------------------------------------------------------------- the hypotheses are satisfiable *)
